@@ -125,10 +125,9 @@ PROPS["C07"] = Prop(
     "verified by Verus against the control-flow reading of the property (spec_stmts / spec_stmt / spec_if / spec_while / spec_for): "
     "for every behaviour of the callees (uninterpreted contracts), every statement list, every nesting, with no bound. "
     "Partial correctness (termination of user loops is not claimed).",
-    vunits=[V_CTL, VUnit('call', 'call', ['eval::eval_call'])],
+    vunits=[V_CTL, VUnit('scoped', 'scoped', ['eval::eval_stmts', 'eval::eval_stmts_in_new_scope']), VUnit('call', 'call', ['eval::eval_call'])],
     assumptions=[
-        "eval_stmts / eval_stmts_in_new_scope (scope push, parameter binding, delegation to the sequence evaluator) are under an assumed contract here",
-        "eval_call's treatment of the signal at the call boundary is a separate unit (V-call) if present",
+        "the contracts of eval_stmts (unit V-scoped), eval_stmt / sequence (V-ctl) and eval_call (V-call) are proved separately; that they refer to the same uninterpreted semantics is by name (sem_scoped)",
         "value_to_pairs is modelled as a function of the iterable's value at its single call",
     ],
     trusted_base=VERUS_TRUST,
@@ -161,7 +160,7 @@ PROPS["C17"] = Prop(
     "EvalBuiltinFuncCallFailed is invisible to the renderer, each user-call wrapper yields exactly one stack-trace line. "
     "(2) Located-ness as an inductive postcondition `located(e)` (AtLoc, or a context wrapper of a located error) on every function "
     "of the V units: assuming callees return located errors, the function returns located errors.",
-    vunits=[V_RENDER, V_CTL, V_RANGE, VUnit('name_bind', 'name_bind', ['bind::bind_next_name', 'bind::bind_name']), VUnit('list_bind', 'list_bind', ['bind::bind_list']), VUnit('call', 'call', ['eval::eval_call'])],
+    vunits=[V_RENDER, V_CTL, V_RANGE, VUnit('name_bind', 'name_bind', ['bind::bind_next_name', 'bind::bind_name']), VUnit('list_bind', 'list_bind', ['bind::bind_list']), VUnit('call', 'call', ['eval::eval_call']), VUnit('scoped', 'scoped', ['eval::eval_stmts', 'eval::eval_stmts_in_new_scope'])],
     assumptions=[
         "message TEXT is not under contract (format! is opaque): 'human-readable, no internal identifier' follows from transparency + located-ness only for errors whose Display text is human-readable",
         "stdout/stderr ordering and exit status 103 (process-level, main is I/O) are not under contract",
